@@ -4,4 +4,4 @@ From Coq Require Import ZArith List Extraction ExtrOcamlBasic.
 From Verif Require Import Model.Retry Model.MsgRun.
 Extraction Language OCaml.
 Extraction "model.ml" Z.add Z.mul Z.div Z.modulo Z.opp
-  run_retry run_canretry run_msg_enc run_msg_dec run_frame_in.
+  run_retry run_canretry run_msg_enc run_msg_dec run_frame_in run_frame_dec.
